@@ -120,7 +120,7 @@ def catalogue(c, hbin, cmds):
 def run(a):
     c = Check(PID, a.tier, a.seed)
     c.cov["rule"] = ("(1) op lines on internal/apicodec codec v2 vs the Lean model: bounds/enckey/deckey/encrange(reverse)/decrange/"
-                     "encregkey/decregkey/encregrange/decregrange/regerr (EpochNotMatch list through DecodeResponse)/reqrange (EncodeRequest on every "
+                     "encregkey/decregkey/encregrange/decregrange/buckets (DecodeBucketKeys)/regerr (EpochNotMatch list through DecodeResponse)/reqrange (EncodeRequest on every "
                      "command with a start_key/end_key pair) are correspondence ops; rt/rtrange/ord/inrange/disj/clip are property ops whose verdict each "
                      "side computes on its own functions; all boundary ids (00/FF patterns, 0, 0xFFFFFF) x both modes x fixed keys, then seeded random keys "
                      "(empty, 00/FF runs, mode bytes, keys around prefix and prefix+1); (2) the catalogue: one row per tikvrpc.CmdType (from go/types over the "
@@ -131,6 +131,8 @@ def run(a):
                      "shorter starts are only compared against the model (decrange)",
                      "which fields are key-bearing is decided by the printed name/type rule; the catalogue probes one field at a time with every "
                      "top-level singular sub-message allocated",
+                     "the field walker (Model/ApiV2Fields.lean) extends a row's observed marker behaviour (prefixed / stripped / what an empty key becomes) to all keys: "
+                     "the catalogue_* theorems hold for the real code only as far as each per-field arm is the uniform EncodeKey / encodeRange / DecodeKey / DecodeRegionRange call the probes suggest",
                      "mocktikv is the store of the end-to-end run (no real TiKV API-v2 behaviour)"]
     cmds = facts(c)
     if cmds:
